@@ -307,6 +307,27 @@ theorem bindCommitX_q (s : State) (pod : Pod) (ns name : String) (uid : Nat) (no
   · exact Quiet7.of_quiet (api_quiet s)
   · exact bindCommit_q s pod ns name uid node ips
 
+/-- the end of Bind, whatever the apiserver answers to the Binding call and whichever reaction the code has -/
+theorem bindFinish_q (F : Plugin.Facts) (s : State) (pod : Pod) (ns name : String) (uid : Nat) (node : String)
+    (ips : List IP) (ans : BindAnswer) : Quiet7 s (bindFinish F s pod ns name uid node ips ans).1 := by
+  have qx := bindCommitX_q s pod ns name uid node ips
+  have qq : Quiet7 s (queueRelease (bindCommitX s pod ns name uid node ips).1 pod) :=
+    qx.trans (Quiet7.of_eq rfl rfl rfl rfl)
+  unfold bindFinish
+  split
+  · exact Quiet7.of_quiet (api_quiet s)
+  · exact qx
+  · exact qx
+  · split
+    · exact qx
+    · exact qq
+  · split
+    · dsimp only
+      split
+      · exact qx
+      · exact qq
+    · exact qx
+
 /-- Bind leaves the count of every pool in `S` alone, provided it allocates nothing or the pod's key is in none of
     the pools of `S` -/
 theorem bind_on (F : Plugin.Facts) (s : State) (ns name : String) (uid : Nat) (node : String) (ch : Choice)
@@ -349,7 +370,7 @@ theorem bind_on (F : Plugin.Facts) (s : State) (ns name : String) (uid : Nat) (n
                   ch.pick).2.2.filterMap id) (bindAlloc s pod node { policy := policyOf pod, node := node, uid := pod.uid } infos
                   ch.pick).1).on S)
               split
-              · exact bl.trans ((bindCommitX_q _ pod ns name uid node _).on S)
+              · exact bl.trans ((bindFinish_q F _ pod ns name uid node _ ch.answer).on S)
               · exact bl
 
 theorem bind_q (F : Plugin.Facts) (s : State) (ns name : String) (uid : Nat) (node : String) (ch : Choice)
